@@ -33,6 +33,9 @@ type c08Input struct {
 	// TruncEnd: the input is cut to less than one read chunk, ends with a word and then the first byte(s) of a
 	// multi-byte sequence (a file read up to some byte count).
 	TruncEnd int `json:"truncend,omitempty"`
+	// TruncLen (with TruncEnd): multi-byte letters are put in front so that the input is exactly this many bytes
+	// long (lengths around one read chunk: what lies one chunk before the cut-off tail is a continuation byte).
+	TruncLen int `json:"trunclen,omitempty"`
 }
 
 var c08Splices = []string{"é", "日本語", "😀", "\xff", "\xf0\x9f", "\xc3", " naïve ", " 😀😀 ", "\xe2\x80", "·", "©", "   ", "\xf4\x90\x80\x80", "—"}
@@ -82,6 +85,13 @@ func (in c08Input) build(cl *Classifier) []byte {
 		}
 		b = bytes.TrimRight(b, " \t\r\n.,;:()\"'")
 		b = append(b, [][]byte{{0xc3}, {0xe2, 0x80}, {0xf0, 0x9f}, {0xc5}}[in.TruncEnd%4]...)
+		if need := in.TruncLen - len(b); need >= 3 && in.TruncLen <= 4096 {
+			lead := []byte(strings.Repeat("\u00e9", (need-1)/2))
+			if (need-1)%2 == 1 {
+				lead = append(lead, 'a')
+			}
+			b = append(append(lead, '\n'), b...)
+		}
 		return b
 	}
 	if in.LongRun > 0 {
@@ -106,11 +116,31 @@ func genC08Input(t *rapid.T) c08Input {
 	if lib.IntN(t, 0, 5, "truncEnd") == 0 {
 		in.TruncEnd = lib.IntN(t, 1, 8, "truncEndKind")
 		in.Every, in.Inject = 0, nil
+		if lib.Bool(t, "truncLen") {
+			// a whole short document behind multi-byte letters, total length around one or two read chunks
+			in.X = recipe{Segs: []seg{{Kind: "doc", Doc: lib.PickInt(t, c08ShortDocs(), "shortDoc")}}}
+			in.Typo = false
+			in.TruncLen = lib.PickInt(t, []int{1020, 2040}, "truncLenBase") + lib.IntN(t, -4, 8, "truncLenDelta")
+		}
 	}
 	if lib.IntN(t, 0, 9, "longrun") == 0 {
 		in.LongRun = lib.PickInt(t, []int{1019, 1020, 1023, 1024, 1025, 2047, 2048, 5000, 70000}, "longrunN")
 	}
 	return in
+}
+
+var c08Short []int
+
+// c08ShortDocs: corpus documents of at most 850 bytes (they survive the TruncEnd cut whole).
+func c08ShortDocs() []int {
+	if c08Short == nil {
+		for i, f := range assets() {
+			if len(f.Content) <= 850 && len(f.Content) > 80 {
+				c08Short = append(c08Short, i)
+			}
+		}
+	}
+	return c08Short
 }
 
 // schedReader delivers data according to a chunk-size schedule.
@@ -207,7 +237,7 @@ func c08FragCheck(ci interface{}) lib.Outcome {
 		cl.Match([]byte("x" + strings.Repeat("é", 700)))
 	}
 	got, err := cl.MatchFrom(&schedReader{data: append([]byte{}, in...), sched: c.Sched, eofWithData: c.EOFWithData, zeroReads: c.ZeroReads})
-	desc := fmt.Sprintf("input %s (typo=%v every=%d inject=%d longrun=%d, %d bytes)", c.In.X.describe(), c.In.Typo, c.In.Every, len(c.In.Inject), c.In.LongRun, len(in))
+	desc := fmt.Sprintf("input %s (typo=%v every=%d inject=%d longrun=%d truncend=%d trunclen=%d, %d bytes)", c.In.X.describe(), c.In.Typo, c.In.Every, len(c.In.Inject), c.In.LongRun, c.In.TruncEnd, c.In.TruncLen, len(in))
 	if err != nil {
 		return lib.Outcome{Violation: fmt.Sprintf("%s: MatchFrom(schedule %v, eofWithData=%v, zeroReads=%v) returned error %v", desc, c.Sched, c.EOFWithData, c.ZeroReads, err)}
 	}
@@ -362,6 +392,11 @@ func c08SweepInput(cl *Classifier, k int) c08Input {
 		}
 		return 0
 	}
+	if k >= 4 {
+		// a whole short document that ends in a cut-off two-byte sequence, behind multi-byte letters; total length
+		// 1021 / 1023 / 2041 bytes: the byte one read chunk before the end of the input is a continuation byte
+		return c08Input{X: recipe{Segs: []seg{{Kind: "doc", Doc: find("ISC", "License")}}}, TruncEnd: 4, TruncLen: []int{1021, 1023, 2041}[(k-4)%3]}
+	}
 	switch k % 4 {
 	case 0:
 		return c08Input{X: recipe{Segs: []seg{{Kind: "doc", Doc: find("MIT", "License")}}}, Typo: true, Every: 67}
@@ -383,6 +418,19 @@ func c08SweepEnum(yield func(interface{}) bool) {
 	}
 	cl := classifierFor(0.8, corpusSel{Full: true})
 	idx := 0
+	for d := 4; d < 7; d++ {
+		for p := 0; p <= 2*1024+8; p++ {
+			if p > 40 && p%8 != 0 && lib.Tier() != "thorough" {
+				continue
+			}
+			idx++
+			if idx%nshards == shard {
+				if !yield(&c08Sweep{Doc: d, Kind: "pad", N: p}) {
+					return
+				}
+			}
+		}
+	}
 	for d := 0; d < ninputs; d++ {
 		n := len(c08SweepInput(cl, d).build(cl))
 		for p := 0; p <= 2*1024+8; p++ {
@@ -422,10 +470,10 @@ func c08SweepCheck(ci interface{}) lib.Outcome {
 	cl := classifierFor(0.8, corpusSel{Full: true})
 	inp := c08SweepInput(cl, c.Doc)
 	in := inp.build(cl)
-	want, ok := c08SweepRef[c.Doc%4]
+	want, ok := c08SweepRef[c.Doc]
 	if !ok {
 		want = cl.Match(in)
-		c08SweepRef[c.Doc%4] = want
+		c08SweepRef[c.Doc] = want
 	}
 	ws := resultString(want)
 	switch c.Kind {
@@ -470,6 +518,6 @@ func TestVerif_C08_Faults(t *testing.T) {
 
 func TestVerif_C08_Sweeps(t *testing.T) {
 	lib.Run(t, lib.Spec{ID: "C08", Part: "sweeps",
-		Rule: "exhaustive over 2 (quick) / 4 (thorough) multi-byte-dense inputs: every pad width 0..2056 (Match and MatchFrom), every failure offset 0..len(input) with and without data, chunk sizes 1..40 and 1010..1030 (all 1..1030 in thorough)",
+		Rule: "exhaustive over 2 (quick) / 4 (thorough) multi-byte-dense inputs: every pad width 0..2056 (Match and MatchFrom); 3 inputs that end in a cut-off multi-byte sequence exactly 1021 / 1023 / 2041 bytes after a run of two-byte letters: pad widths 0..40 and every 8th up to 2056 (all in thorough), every failure offset 0..len(input) with and without data, chunk sizes 1..40 and 1010..1030 (all 1..1030 in thorough)",
 		New:  func() interface{} { return &c08Sweep{} }, Enum: c08SweepEnum, Check: c08SweepCheck, Exhaustive: true})
 }
